@@ -6,6 +6,7 @@ crypt_preferred_method on their own objects; results are compared with a
 sequentially computed table; measured overlap of calls is reported.  Positive
 control: the same binary with the documented MT-unsafe crypt() must make TSan
 speak, otherwise the run is void (exit 2)."""
+import os
 import re
 import subprocess
 
@@ -167,6 +168,22 @@ def run(tier):
         owork.append((opt_path, lines, 8, iters, run_.seed * 31 + mi, "opt-hammer", mi))
     for acc in pool.pmap(do_run, owork, nproc=2):
         run_.merge(acc)
+    # the mixed run again on a TSan build that has to use the library's own explicit_bzero (a C library without
+    # one): other shared state may live there
+    from . import C19
+    import shutil
+    none = {"HAVE_EXPLICIT_BZERO": None, "HAVE_MEMSET_S": None, "HAVE_EXPLICIT_MEMSET": None, "HAVE_MEMSET_EXPLICIT": None}
+    bname, en, vexe, verr, _ = C19.build_config(("c08-fallbacks", list(gen.METHODS), none, "-O1 -g -fsanitize=thread"))
+    if vexe is None:
+        run_.acc.inconc("TSan build with the fallback implementations failed: " + verr[-300:])
+    else:
+        try:
+            vwork = [(vexe, lines, 8, 100 if tier == "quick" else 300, run_.seed * 4242 + i, "mix-fallbacks", -1)
+                     for i in range(2 if tier == "quick" else 8)]
+            for acc in pool.pmap(do_run, vwork, nproc=2):
+                run_.merge(acc)
+        finally:
+            shutil.rmtree(os.path.dirname(vexe), ignore_errors=True)
     # positive control
     res, end, err = one_run(path, lines, 2, 400, run_.seed, 2)
     ctrl = len(tsan_reports(err))
